@@ -55,7 +55,9 @@ def safe_cmyk(
 def safe_rect_list(value: Any) -> Optional[Rect]:
     try:
         values = list(itertools.islice(value, 4))
-    except TypeError:
+    except (KeyError, TypeError):
+        # KeyError: a PDFStream can be iterated (it has __getitem__), which
+        # ends in a lookup of 0 in its dictionary
         return None
 
     if len(values) != 4:
